@@ -2,6 +2,7 @@ package rules
 
 import (
 	"go/token"
+	"go/types"
 	"strings"
 
 	"golang.org/x/tools/go/ssa"
@@ -11,11 +12,11 @@ import (
 
 // C40 — epoch timers fire each tick exactly once per epoch, at the right time.
 func init() {
-	register(&Check{ID: "C40", Level: "other", Pkgs: []string{"./pkg/timers"}, Run: runC40})
+	register(&Check{ID: "C40", Level: "other", Pkgs: []string{"./pkg/timers", "./pkg/util"}, Run: runC40})
 }
 
 func runC40(p *core.Prog, r *core.Report) {
-	r.Explain = "Decides the per-call structure of EpochTimers.UpdateTime/Reset on all CFG paths: every handler invocation is dominated by its own done==false test and by nextTickAt <= <the block time argument>; every invocation is followed on every path to the exit by done=true for that handler class (so it cannot fire twice before a reset); the sub-epoch handlers are examined on every call that did not start with the epoch already done (an epoch tick cannot starve a pending sub-epoch tick of the same block); done flags are cleared only in Reset and set only in UpdateTime; both methods run under the mutex for their whole body. Not covered: the arithmetic of the schedule (lastTick + dur*mul/div) and behaviour over real block streams."
+	r.Explain = "Decides the per-call structure of EpochTimers.UpdateTime/Reset on all CFG paths: every handler invocation is dominated by its own done==false test and by nextTickAt <= <the block time argument>; every invocation is followed on every path to the exit by done=true for that handler class (so it cannot fire twice before a reset); the sub-epoch handlers are examined on every call that did not start with the epoch already done (an epoch tick cannot starve a pending sub-epoch tick of the same block); done flags are cleared only in Reset and set only in UpdateTime; both methods run under the mutex for their whole body. (R6) the asynchronous single-instance wrapper that every tick handler is passed through runs the handler for every request it takes from its queue. Not covered: the arithmetic of the schedule (lastTick + dur*mul/div) and behaviour over real block streams."
 	const T = "(*pkg/timers.EpochTimers)"
 	upd, reset := p.Func(T+".UpdateTime"), p.Func(T+".Reset")
 	if upd == nil || reset == nil {
@@ -183,4 +184,95 @@ func runC40(p *core.Prog, r *core.Report) {
 		}
 		r4.Check(ok, core.FuncName(fn)+"#lock", p.Pos(fn.Pos()), "Lock is the first call and the only Unlock is deferred at entry", "the timer state is read or written outside the mutex")
 	}
+	// ---------------- R6 the asynchronous wrapper runs the handler for every request it takes
+	r6 := r.Rule("C40.R6", "SingleAsyncExecutingInstance (the wrapper every tick handler goes through): each request taken from the queue leads to a run of the handler before the next one is taken — no request is taken and dropped", 1)
+	if wf := p.Func("pkg/util.SingleAsyncExecutingInstance"); wf == nil {
+		r.Fatalf("C40.R6: SingleAsyncExecutingInstance not found")
+	} else {
+		n := 0
+		for _, cl := range wf.AnonFuncs {
+			// the worker: the closure that calls the wrapped function f (free variable of func() type)
+			var fcalls = map[*ssa.BasicBlock]bool{}
+			for _, b := range cl.Blocks {
+				for _, in := range b.Instrs {
+					c, ok := in.(*ssa.Call)
+					if !ok || c.Call.IsInvoke() {
+						continue
+					}
+					if fv, isFV := core.Unwrap(c.Call.Value).(*ssa.FreeVar); isFV && fv.Name() == wf.Params[0].Name() {
+						fcalls[b] = true
+					} else if u, isU := c.Call.Value.(*ssa.UnOp); isU {
+						if fv, isFV := u.X.(*ssa.FreeVar); isFV && fv.Name() == wf.Params[0].Name() {
+							fcalls[b] = true
+						}
+					}
+				}
+			}
+			if len(fcalls) == 0 {
+				continue
+			}
+			var firstSel *ssa.Select
+			for _, b := range cl.Blocks {
+				for _, in := range b.Instrs {
+					sel, ok := in.(*ssa.Select)
+					if !ok {
+						continue
+					}
+					if firstSel == nil {
+						firstSel = sel
+					}
+					for i, st := range sel.States {
+						if st.Dir != types.RecvOnly || !strings.HasSuffix(st.Chan.Type().String(), "chan struct{}") {
+							continue
+						}
+						cb := selectCaseBlock(sel, i)
+						if cb == nil {
+							// no branch on the outcome (empty case bodies): the request is taken right in the select's block
+							n++
+							after, afterHasF := false, false
+							for _, in2 := range sel.Block().Instrs {
+								if in2 == ssa.Instruction(sel) {
+									after = true
+									continue
+								}
+								if c2, isC := in2.(*ssa.Call); after && isC && !c2.Call.IsInvoke() {
+									if u, isU := c2.Call.Value.(*ssa.UnOp); isU {
+										if fv, isFV := u.X.(*ssa.FreeVar); isFV && fv.Name() == wf.Params[0].Name() {
+											afterHasF = true
+										}
+									}
+								}
+							}
+							others := map[*ssa.BasicBlock]bool{}
+							for b2 := range fcalls {
+								if b2 != sel.Block() {
+									others[b2] = true
+								}
+							}
+							okNB := afterHasF || !reachesAvoiding(sel.Block(), firstSel.Block(), others, nil)
+							r6.Check(okNB, core.FuncName(cl)+"#request-taken→handler-runs", p.InstrPos(sel), "a taken request always leads to a run of the handler", "the worker takes a request from its queue without running the handler for it (a receive whose outcome is not even looked at): a tick that fires while the handler is still busy with the previous one is acknowledged by the timer (done=true) but never handled")
+							continue
+						}
+						// a receive whose case returns is the stop signal, not a request
+						stops := false
+						for _, in2 := range cb.Instrs {
+							if _, isRet := in2.(*ssa.Return); isRet {
+								stops = true
+							}
+						}
+						if stops {
+							continue
+						}
+						n++
+						ok := fcalls[cb] || !reachesAvoiding(cb, firstSel.Block(), fcalls, nil)
+						r6.Check(ok, core.FuncName(cl)+"#request-taken→handler-runs", p.InstrPos(sel), "a taken request always leads to a run of the handler", "the worker takes a request from its queue on a path that does not run the handler: a tick that fires while the handler is still busy with the previous one is acknowledged by the timer (done=true) but never handled")
+					}
+				}
+			}
+		}
+		if n == 0 {
+			r.Fatalf("C40.R6: no request receive found in the worker of SingleAsyncExecutingInstance")
+		}
+	}
+
 }
